@@ -59,6 +59,11 @@ def bitslice(t, classify):
                     return bitslice(("bin", "BitAnd", ("bin", "Shr", base[2][0], ("const", lo, "u32")), ("const", 0xFF, "u32")), classify)
     if tag == "call" and len(t[2]) == 1 and re.search(r"::from$", t[1]) and re.search(r"From<(u8|u16|u32)> for (u16|u32|u64|usize|i32|i64)>", t[1]):
         return bitslice(t[2][0], classify)
+    if tag == "call" and len(t[2]) == 2:
+        # operators applied to references (`&u8 >> usize`): the trait call is the primitive operation
+        m = re.search(r"^<&?(?:'\w+ )?(u8|u16|u32|u64|usize|i32|i64) as std::ops::(Shr|Shl|BitAnd|BitOr|Add|Sub|Mul)<[^>]*>>::\w+$", t[1])
+        if m:
+            return bitslice(("bin", m.group(2), t[2][0], t[2][1]), classify)
     if tag == "bin":
         op = t[1].replace("WithOverflow", "").replace("Unchecked", "")
         if op in ("Add", "Sub"):
